@@ -47,7 +47,7 @@ CHECKS = [
     ("utils.py", "C12 C19 C01 C02 C13 C14 C15 C18 C17"),
     ("config.py", "C19 C18 C15 C13"),
     ("__main__.py", "C19"),
-    ("logging.py", "C03 C04 C15"),
+    ("logging.py", "C03 C05 C04 C15"),
     ("events.py", "C07 C01"),
     ("typing.py", "C01"),
     ("middleware/wsgi.py", "C17"),
